@@ -38,15 +38,17 @@ ASSUMPTIONS = [
 # ------------------------------------------------------------------------------------------------ signatures
 
 VARIANTS = {
-    # tag: (utype default expr | None, reference default expr | None, alias?, private?)
-    "req": (None, None, False, False),
-    "def": ("7", "7", False, False),
-    "alias": ("Param(alias_from=['{n}_al'])", None, True, False),
-    "adef": ("Param(7, alias_from=['{n}_al'])", "7", True, False),
-    "priv": ("5", "5", False, True),
+    # tag: (utype default expr | None, reference default expr | None, alias suffix | None, private?)
+    "req": (None, None, None, False),
+    "def": ("7", "7", None, False),
+    "alias": ("Param(alias_from=['{n}_al'])", None, "_al", False),
+    "adef": ("Param(7, alias_from=['{n}_al'])", "7", "_al", False),
+    "oalias": ("Param(alias='{n}_out')", None, "_out", False),
+    "oadef": ("Param(7, alias='{n}_out')", "7", "_out", False),
+    "priv": ("5", "5", None, True),
 }
-KIND_VARIANTS = {"po": ["req", "def", "priv"], "pk": ["req", "def", "alias", "adef", "priv"],
-                 "ko": ["req", "def", "alias", "adef", "priv"]}
+KIND_VARIANTS = {"po": ["req", "def", "priv"], "pk": ["req", "def", "alias", "adef", "oalias", "oadef", "priv"],
+                 "ko": ["req", "def", "alias", "adef", "oalias", "priv"]}
 
 
 class Sig:
@@ -164,7 +166,7 @@ def calls(sig: Sig, tier):
         if k in ("pk", "ko"):
             kwnames.append(n)
             if VARIANTS[v][2]:
-                kwnames.append(n + "_al")
+                kwnames.append(n + VARIANTS[v][2])
         elif VARIANTS[v][3]:
             kwnames.append(n)     # a private positional-only name by keyword (ignored / TypeError)
     kwnames.append("zz")
@@ -202,7 +204,7 @@ def expected(sig: Sig, ref, args, kwargs):
     private = set()
     for (k, v), n in zip(sig.params, sig.names):
         if VARIANTS[v][2]:
-            alias_of[n + "_al"] = n
+            alias_of[n + VARIANTS[v][2]] = n
         if VARIANTS[v][3]:
             private.add(n)
     mapped = {}
@@ -255,20 +257,23 @@ GEN_KINDS = ["sync", "sync-eager", "async", "async-eager"]
 STEPS = ["next", "send('5')", "send(7)", "send('x')", "send(None)"]
 
 
-def gen_source(kind, body):
+GEN_ANNS = ["full", "iter", "none"]     # Generator[int, int, int] / Iterator[int] / no return annotation
+
+
+def gen_source(kind, body, ann="full"):
     is_async = kind.startswith("async")
     eager = kind.endswith("eager")
     text, _ = GEN_BODIES[body]
     if is_async:
         # async generators cannot return a value
         text = text.replace("return '9'", "return").replace("return 8", "return").replace("return 9", "return")
-        ann = "AsyncGenerator[int, int]"
+        a = {"full": " -> AsyncGenerator[int, int]", "iter": " -> typing.AsyncIterator[int]", "none": ""}[ann]
         head = "async def"
     else:
-        ann = "Generator[int, int, int]"
+        a = {"full": " -> Generator[int, int, int]", "iter": " -> typing.Iterator[int]", "none": ""}[ann]
         head = "def"
     deco = "@utype.parse(eager=True)" if eager else "@utype.parse"
-    return (f"LOG = []\nRLOG = []\n{deco}\n{head} W() -> {ann}:\n{text}"
+    return (f"LOG = []\nRLOG = []\n{deco}\n{head} W(){a}:\n{text}"
             f"{head} REF():\n{text.replace('LOG.append', 'RLOG.append')}")
 
 
@@ -281,13 +286,17 @@ def run_coro(aw):
 
 
 def drive(gen, script, is_async, convert):
-    """-> list of step outcomes ('yield', v) | ('return', v) | ('error', kind); stops at the first non-yield"""
+    """-> list of step outcomes ('yield', v) | ('return', v) | ('error', kind); stops at the first non-yield.
+    convert: False (the decorated generator) or the annotation variant of the reference: which channels are converted"""
     out = []
+    conv_yield = convert in (True, "full", "iter")
+    conv_send = convert in (True, "full")
+    conv_ret = convert in (True, "full")
     for st in script:
         val = None
         if st.startswith("send("):
             val = eval(st[5:-1])
-        if convert and val is not None:
+        if conv_send and val is not None:
             try:
                 val = int(val)
             except (TypeError, ValueError):
@@ -300,7 +309,7 @@ def drive(gen, script, is_async, convert):
                 item = gen.send(val) if st != "next" else next(gen)
         except StopIteration as e:
             rv = e.value
-            if convert and rv is not None:
+            if conv_ret and rv is not None:
                 rv = int(rv)
             out.append(("return", rv))
             return out
@@ -314,7 +323,7 @@ def drive(gen, script, is_async, convert):
             # sending a non-None value into a just-started generator: Python's own protocol error
             out.append(("error", "TypeError:" + str(e)[:40]))
             return out
-        if convert:
+        if conv_yield:
             try:
                 item = int(item)
             except (TypeError, ValueError):
@@ -337,7 +346,7 @@ CHUNK = 12
 def shards(tier):
     n = len(signatures(tier))
     sh = [("sig", i, min(i + CHUNK, n)) for i in range(0, n, CHUNK)]
-    sh += [("gen", k, b) for k in GEN_KINDS for b in GEN_BODIES]
+    sh += [("gen", k, b, a) for k in GEN_KINDS for b in GEN_BODIES for a in GEN_ANNS]
     sh += [("ret", k) for k in ("sync", "async", "async-eager")]
     return sh
 
@@ -345,7 +354,7 @@ def shards(tier):
 def run_shard(shard, tier):
     acc = Acc()
     if shard[0] == "gen":
-        _gen_shard(acc, shard[1], shard[2], tier)
+        _gen_shard(acc, shard[1], shard[2], tier, shard[3])
         return acc
     if shard[0] == "ret":
         _ret_shard(acc, shard[1], tier)
@@ -433,7 +442,7 @@ def _shape(sig, args, kwargs):
     for k in kwargs:
         if k == "zz":
             kws.append("unknown")
-        elif k.endswith("_al"):
+        elif k.endswith("_al") or k.endswith("_out"):
             kws.append("alias")
         elif k.startswith("_"):
             kws.append("private")
@@ -446,7 +455,7 @@ def _coarse(sig, args, kwargs):
     """coarse call shape for fingerprints: which parameter kinds / variants exist, how the call names things"""
     kinds = "".join(sorted({k for k, _ in sig.params}))
     variants = ",".join(sorted({v for _, v in sig.params}))
-    kws = sorted({("unknown" if k == "zz" else "alias" if k.endswith("_al") else "private" if k.startswith("_") else "name")
+    kws = sorted({("unknown" if k == "zz" else "alias" if (k.endswith("_al") or k.endswith("_out")) else "private" if k.startswith("_") else "name")
                   for k in kwargs})
     npos = sum(1 for k, _ in sig.params if k in ("po", "pk"))
     extra = "extra-positional" if len(args) > npos else "positional" if args else "no-positional"
@@ -465,8 +474,8 @@ def _script(src, ctx, call, exp):
         "sys.exit(1 if bad else 0)"]) + "\n"
 
 
-def _gen_shard(acc, kind, body, tier):
-    src = gen_source(kind, body)
+def _gen_shard(acc, kind, body, tier, ann="full"):
+    src = gen_source(kind, body, ann)
     is_async = kind.startswith("async")
     maxlen = 5 if tier == "thorough" else 4
     for n in range(1, maxlen + 1):
@@ -488,7 +497,7 @@ def _gen_shard(acc, kind, body, tier):
                 # a non-None value sent into a generator that has not started: Python's own protocol error
                 acc.extra["not_judged:non-None sent to a fresh generator"] += 1
                 continue
-            ref = drive(env["REF"](), script, is_async, convert=True)
+            ref = drive(env["REF"](), script, is_async, convert=ann)
             acc.transitions += len(got)
             acc.evaluations += 1
             acc.outcomes[got[-1][0] if got else "empty"] += 1
@@ -502,13 +511,13 @@ def _gen_shard(acc, kind, body, tier):
                 same = True
             if not same:
                 step = next((i for i in range(k) if canon(got[i]) != canon(ref[i])), k)
-                fp = f"C08|gen|{kind}|{body}|step-{script[step] if step < len(script) else 'end'}|{_gk(got, step)}-vs-{_gk(ref, step)}"
+                fp = f"C08|gen|{kind}|{ann}|{body}|step-{script[step] if step < len(script) else 'end'}|{_gk(got, step)}-vs-{_gk(ref, step)}"
                 acc.violation(fp, f"{kind} generator body '{body}' driven by {list(script)}: observed {got}, the undecorated "
-                                  f"body with int conversion gives {ref}", _gen_script(kind, body, script))
+                                  f"body with int conversion gives {ref}", _gen_script(kind, body, script, ann))
             elif canon(log) != canon(rlog):
-                fp = f"C08|gen|{kind}|{body}|received-values"
+                fp = f"C08|gen|{kind}|{ann}|{body}|received-values"
                 acc.violation(fp, f"{kind} generator body '{body}' driven by {list(script)}: the body received {log}, the "
-                                  f"reference body received {rlog}", _gen_script(kind, body, script))
+                                  f"reference body received {rlog}", _gen_script(kind, body, script, ann))
             acc.nontrivial_add((kind, body, script))
             if acc.states % 101 == 0:
                 acc.sample(dict(generator=kind, body=body, script=list(script), observed=short(got, 100)))
@@ -518,14 +527,14 @@ def _gk(seq, i):
     return seq[i][0] if i < len(seq) else "none"
 
 
-def _gen_script(kind, body, script):
+def _gen_script(kind, body, script, ann="full"):
     return "\n".join([
         "import sys", "sys.path.insert(0, '/verif')", "from utmc.ns import *", "from utmc.props import c08",
-        "import inspect", f"src = c08.gen_source({kind!r}, {body!r})", "print(src)", "env = {}", "exec('from utmc.ns import *', env)",
+        "import inspect", f"src = c08.gen_source({kind!r}, {body!r}, {ann!r})", "print(src)", "env = {}", "exec('from utmc.ns import *', env)",
         "exec(src, env)", "g = env['W']()", f"is_async = {kind.startswith('async')!r}",
         f"if {kind == 'async'!r} and inspect.iscoroutine(g): g = c08.run_coro(g)",
         f"got = c08.drive(g, {list(script)!r}, is_async, convert=False)",
-        f"ref = c08.drive(env['REF'](), {list(script)!r}, is_async, convert=True)",
+        f"ref = c08.drive(env['REF'](), {list(script)!r}, is_async, convert={ann!r})",
         "print('observed ', got); print('reference', ref); print('body log', env['LOG'], 'reference log', env['RLOG'])",
         "sys.exit(0 if (got == ref and env['LOG'] == env['RLOG']) else 1)"]) + "\n"
 
